@@ -342,15 +342,22 @@ def oracle(ctx, extra):
             if "directives" in name:
                 # long documents with a table of contents: their block and render phases overlap between threads
                 style = "```{toc}\n```\n" if name.startswith("fenced") else ".. toc::\n"
-                for j in range(0, 24, 3):
-                    docs[j] = "".join("# H%d-%d\n\ntext *%d*\n\n## S%d\n\n- a\n- b\n\n" % (j, i, i, i) for i in range(60)) + style + "\n# end %d\n" % j
+                # the directive stands at the start, in the middle or at the end, so that whatever a conversion keeps between
+                # reading the directive and rendering it is exposed to the other threads for a long, a medium or a short time
+                for j in range(24):
+                    if j % 4 != 3:
+                        secs = ["# H%d-%d\n\ntext *%d*\n\n## S%d\n\n- a\n- b\n\n" % (j, i, i, i) for i in range(120)]
+                        at = (0, 60, 120)[j % 3]
+                        docs[j] = "".join(secs[:at]) + style + "\n" + "".join(secs[at:]) + "# end %d\n" % j
             want = [pristine().ref(name, d) for d in docs]
             got = [None] * len(docs)
 
             def work(j):
                 for _ in range(ctx.n(3, 20)):
                     for i in range(j, len(docs), 8):
-                        got[i] = safe_call(md, docs[i])
+                        g = safe_call(md, docs[i])
+                        if got[i] is None or got[i] == want[i]:      # keep the first differing result of any repetition
+                            got[i] = g
             old = sys.getswitchinterval()
             sys.setswitchinterval(1e-5)
             try:
@@ -371,7 +378,7 @@ def oracle(ctx, extra):
                     "setext/atx headings with toc hook/directive, images with the RST renderer, nested directives up to the "
                     "depth limit; 45% generated; for the fenced-directive configuration 40% pages converted with a file context that include the same Markdown files and define the references those files use) on one converter vs a fresh converter per document in a forked pristine process (so module-level leaks show too), for 11 configurations; "
                     "md.use(plugin) in the middle of a history; the shared mistune.html and cached mistune.markdown(); 8 "
-                    "threads on a shared instance with a 10us switch interval (for the directive configurations a third of the documents are long, with a table of contents); non-trivial = every history (length >= 2)",
+                    "threads on a shared instance with a 10us switch interval (for the directive configurations three quarters of the documents are long, with a table of contents at the start, in the middle or at the end); non-trivial = every history (length >= 2)",
             "samples": [json.dumps(history_docs(r, 2))]}
 
 
